@@ -14,6 +14,12 @@ pub fn ident(b: &[u8]) -> String {
     if b.len() <= 40 { format!("x{}", hexs(b)) } else { format!("n{}:{}", b.len(), hexs(&shake256(&[b], 16))) }
 }
 
+/// identity of the formatted message M' (hook-free arithmetic of msgfmt.rs; TraceF's Format events tie that to the
+/// specification's FormatMsg); contexts over the limit have no M'
+pub fn mp_ident(mode: &str, ctx: &[u8], m: &[u8]) -> String {
+    if ctx.len() > 255 { "none".to_string() } else { ident(&format_msg(mode, ctx, m)) }
+}
+
 pub struct World<'a, S: MlDsa> {
     next: i64,
     pub pks: HashMap<i64, S::Pk>,
@@ -56,7 +62,7 @@ impl<'a, S: MlDsa> World<'a, S> {
         let mut rng = ScriptRng::faulty(draw, fault.clone(), 0);
         let sk = self.sks.get(&hs).expect("sk handle").clone();
         let r = guarded(|| S::sign(&sk, &mut rng, m, ctx, mode));
-        let mut e = json!({"ev": "Sign", "sk": hs, "msg": ident(m), "ctx": ident(ctx), "ctxlen": ctx.len(), "mode": mode, "draw": ident(draw),
+        let mut e = json!({"ev": "Sign", "sk": hs, "msg": ident(m), "ctx": ident(ctx), "ctxlen": ctx.len(), "mode": mode, "mp": mp_ident(mode, ctx, m), "draw": ident(draw),
                            "fault": fault_name(&fault), "rnglog": rng.log_json(), "sig": "none"});
         match r {
             Ok(Ok(sig)) => { e["ok"] = json!(true); e["sig"] = json!(ident(&sig)); self.emit(e, None); Some(sig) }
@@ -67,7 +73,21 @@ impl<'a, S: MlDsa> World<'a, S> {
     pub fn verify(&mut self, hp: i64, m: &[u8], ctx: &[u8], mode: &str, sig: &[u8]) -> Option<bool> {
         let pk = self.pks.get(&hp).expect("pk handle").clone();
         let r = guarded(|| S::verify(&pk, m, sig, ctx, mode));
-        let mut e = json!({"ev": "Verify", "pk": hp, "msg": ident(m), "ctx": ident(ctx), "ctxlen": ctx.len(), "mode": mode, "sig": ident(sig)});
+        let mut e = json!({"ev": "Verify", "pk": hp, "msg": ident(m), "ctx": ident(ctx), "ctxlen": ctx.len(), "mode": mode, "mp": mp_ident(mode, ctx, m), "sig": ident(sig)});
+        match r { Ok(b) => { e["res"] = json!(b); self.emit(e, None); Some(b) } Err(p) => { self.emit(e, Some(p)); None } }
+    }
+    /// Algorithm 7 through the internal interface (M' and rnd given)
+    pub fn sign_internal(&mut self, hs: i64, mp: &[u8], draw: &[u8; 32]) -> Option<Vec<u8>> {
+        let sk = self.sks.get(&hs).expect("sk handle").clone();
+        let r = guarded(|| S::internal_sign(&sk, mp, *draw));
+        let mut e = json!({"ev": "SignInternal", "sk": hs, "mp": ident(mp), "draw": ident(draw), "sig": "none"});
+        match r { Ok(sig) => { e["sig"] = json!(ident(&sig)); self.emit(e, None); Some(sig) } Err(p) => { self.emit(e, Some(p)); None } }
+    }
+    /// Algorithm 8 through the internal interface
+    pub fn verify_internal(&mut self, hp: i64, mp: &[u8], sig: &[u8]) -> Option<bool> {
+        let pk = self.pks.get(&hp).expect("pk handle").clone();
+        let r = guarded(|| S::internal_verify(&pk, mp, sig));
+        let mut e = json!({"ev": "VerifyInternal", "pk": hp, "mp": ident(mp), "sig": ident(sig)});
         match r { Ok(b) => { e["res"] = json!(b); self.emit(e, None); Some(b) } Err(p) => { self.emit(e, Some(p)); None } }
     }
     pub fn ser(&mut self, h: i64) -> Vec<u8> {
@@ -149,7 +169,7 @@ impl<'a, S: MlDsa> World<'a, S> {
             (base, accepted)
         });
         let mut e = json!({"ev": "FlipSweep", "field": field, "pk": hp, "msg": ident(m), "msglen": m.len(), "ctx": ident(ctx), "ctxlen": ctx.len(),
-                           "mode": mode, "sig": ident(sig), "nbits": target.len() * 8});
+                           "mode": mode, "mp": mp_ident(mode, ctx, m), "sig": ident(sig), "nbits": target.len() * 8});
         match r { Ok((base, acc)) => { e["base_res"] = json!(base); e["accepted"] = json!(acc); self.emit(e, None); } Err(p) => self.emit(e, Some(p)) }
     }
 }
@@ -184,6 +204,17 @@ pub fn honest<S: MlDsa>(seed: u64, nseeds: usize, nmsgs: usize, out: &mut Out) {
                 // the same draw on a key of another provenance gives the same signature (C09)
                 if mi == 0 { let _ = w.sign(sks[(mi + k + 1) % 3], &m, &ctx, mode, &draw, Fault::None); }
                 for hpk in pks { let _ = w.verify(hpk, &m, &ctx, mode, &sig); }
+                // the two interfaces are one function of (key, M', rnd): Sign_internal on FormatMsg(..) with the same rnd gives
+                // the same string, and each interface accepts what the other issued
+                if (mi + k + si) % 3 == 0 {
+                    let mp = format_msg(mode, &ctx, &m);
+                    let _ = w.sign_internal(sks[(mi + k + 2) % 3], &mp, &draw);
+                    let _ = w.verify_internal(pks[(mi + k) % 4], &mp, &sig);
+                    let d2 = p.arr32();
+                    if let Some(s_int) = w.sign_internal(hsk, &mp, &d2) { let _ = w.verify(pks[(mi + k + 1) % 4], &m, &ctx, mode, &s_int); }
+                    // a raw M' that is no external format (first byte 2): issued and accepted through the internal interface only
+                    if mi == 0 { let raw = [&[2u8][..], &m[..m.len().min(64)]].concat(); if let Some(s_raw) = w.sign_internal(hsk, &raw, &d2) { let _ = w.verify_internal(pks[k % 4], &raw, &s_raw); let _ = w.verify(pks[k % 4], &raw, b"", "pure", &s_raw); } }
+                }
                 // and a few things that must not verify
                 if k == mi % 4 {
                     let mut s2 = sig.clone(); let pos = p.below(s2.len().max(1) as u64) as usize; if !s2.is_empty() { s2[pos] ^= 1 << p.below(8); }
@@ -393,7 +424,7 @@ pub fn ctxlimit<S: MlDsa>(seed: u64, maxlen: usize, extra: &[usize], out: &mut O
     let mut p = Prng::new(seed, 0x0700 + S::SET as u64);
     let mut w = World::<S>::new(out);
     let (hp, hs) = w.keygen_seed(&p.arr32());
-    let sk = w.sks.get(&hs).unwrap().clone();
+    let _sk = w.sks.get(&hs).unwrap().clone();
     let m = b"context limit".to_vec();
     let lens: Vec<usize> = (0..=maxlen).chain(extra.iter().cloned()).collect();
     for (i, n) in lens.iter().enumerate() {
@@ -408,8 +439,9 @@ pub fn ctxlimit<S: MlDsa>(seed: u64, maxlen: usize, extra: &[usize], out: &mut O
                 // what a truncating verifier would reconstruct: M' with the length byte wrapped modulo 256
                 let mut mp = format_msg(mode, &ctx, &m);
                 mp[1] = (*n % 256) as u8;
-                let forged = S::internal_sign(&sk, &mp, draw);
+                let forged = w.sign_internal(hs, &mp, &draw).unwrap_or_default();
                 let _ = w.verify(hp, &m, &ctx, mode, &forged);
+                let _ = w.verify_internal(hp, &mp, &forged);          // the internal interface has no context rule: accepted there
                 // ... and one signed for the truncated context
                 let short = &ctx[..*n % 256];
                 if let Some(s2) = w.sign(hs, &m, short, mode, &draw, Fault::None) { let _ = w.verify(hp, &m, &ctx, mode, &s2); }
@@ -620,6 +652,10 @@ pub fn replay_behaviours<S: MlDsa>(seed: u64, file: &str, out: &mut Out) -> usiz
         let mut sers: HashMap<String, Vec<u8>> = HashMap::new(); // kind/lineage -> bytes
         let g = |c: &Value, k: &str| c[k].as_str().unwrap().to_string();
         let gi = |c: &Value, k: &str| c[k].as_i64().unwrap();
+        // abstract signature identity [set, ["seed", s], [mode, ctx, msg], draw] -> key of `sigs`
+        let sigkey = |t: &Value| format!("{}|{}|{}|{}|{}", t[1][1].as_str().unwrap_or("?"), t[2][0].as_str().unwrap(), t[2][1].as_str().unwrap(), t[2][2].as_str().unwrap(), t[3].as_str().unwrap());
+        // abstract formatted message [mode, ctx, msg] (or ["raw", _, _]) -> the bytes of M'
+        let mpbytes = |mp: &Value| -> Vec<u8> { let mode = mp[0].as_str().unwrap(); if mode == "raw" { vec![2u8, 0x78, 0x78] } else { format_msg(mode, &ctxs[mp[1].as_str().unwrap()], &msgs[mp[2].as_str().unwrap()]) } };
         for c in calls.iter() {
             match c["op"].as_str().unwrap() {
                 "KeyGenSeed" => { let s = g(c, "seed"); let (hp, hs) = w.keygen_seed(&seeds[s.as_str()]); hmap.insert(gi(c, "pk"), hp); hmap.insert(gi(c, "sk"), hs); lin.insert(hp, s.clone()); lin.insert(hs, s); }
@@ -633,15 +669,25 @@ pub fn replay_behaviours<S: MlDsa>(seed: u64, file: &str, out: &mut Out) -> usiz
                     let f = match g(c, "fault").as_str() { "none" => Fault::None, "err_before" => Fault::ErrBefore, _ => Fault::ErrAfter(31) };
                     let (m, cx, mode, d) = (g(c, "msg"), g(c, "ctx"), g(c, "mode"), g(c, "draw"));
                     if let Some(sig) = w.sign(hs, &msgs[m.as_str()], &ctxs[cx.as_str()], &mode, &draws[d.as_str()], f) {
-                        sigs.insert(format!("{}|{}|{}|{}|{}", lin[&hs], m, cx, mode, d), sig);
+                        sigs.insert(format!("{}|{}|{}|{}|{}", lin[&hs], mode, cx, m, d), sig);
                     }
                 }
                 "Verify" => {
                     let Some(&hp) = hmap.get(&gi(c, "pk")) else { continue };
-                    let t = &c["sigof"]; // [set, ["seed", s], msg, ctx, mode, draw]
-                    let key = format!("{}|{}|{}|{}|{}", t[1][1].as_str().unwrap_or("?"), t[2].as_str().unwrap(), t[3].as_str().unwrap(), t[4].as_str().unwrap(), t[5].as_str().unwrap());
-                    let Some(sig) = sigs.get(&key).cloned() else { continue };
+                    let Some(sig) = sigs.get(&sigkey(&c["sigof"])).cloned() else { continue };
                     let _ = w.verify(hp, &msgs[g(c, "msg").as_str()], &ctxs[g(c, "ctx").as_str()], &g(c, "mode"), &sig);
+                }
+                "SignInternal" => {
+                    let Some(&hs) = hmap.get(&gi(c, "sk")) else { continue };
+                    let (mp, d) = (&c["mp"], g(c, "draw"));
+                    if let Some(sig) = w.sign_internal(hs, &mpbytes(mp), &draws[d.as_str()]) {
+                        sigs.insert(format!("{}|{}|{}|{}|{}", lin[&hs], mp[0].as_str().unwrap(), mp[1].as_str().unwrap(), mp[2].as_str().unwrap(), d), sig);
+                    }
+                }
+                "VerifyInternal" => {
+                    let Some(&hp) = hmap.get(&gi(c, "pk")) else { continue };
+                    let Some(sig) = sigs.get(&sigkey(&c["sigof"])).cloned() else { continue };
+                    let _ = w.verify_internal(hp, &mpbytes(&c["mp"]), &sig);
                 }
                 "Ser" => { let Some(&h) = hmap.get(&gi(c, "h")) else { continue }; let kind = if w.pks.contains_key(&h) { "pk" } else { "sk" }; let b = w.ser(h); sers.insert(format!("{}|{}", kind, lin[&h]), b); }
                 "Deser" => {
